@@ -329,93 +329,119 @@ func reinforcement(c *vk.Ctx) {
 				}
 			}
 		}
+		// the counter of memory a may already exist, in any number type the embedding API can hand in
+		inits := []any{nil, float64(3), int(3), int64(3)}
 		for _, s := range seqs {
-			if !c.Mine() {
-				continue
-			}
-			n++
-			w, err := hx.NewWorld()
-			if err != nil {
-				continue
-			}
-			e := w.E
-			mc := hnsw.MemoryConfig{Enabled: true, DecayModel: hnsw.DecayModel(modelName), DecayHalfLife: hnsw.Duration(100 * time.Second)}
-			e.VCreate("i", "euclidean", 16, 200, "float32", "", nil, nil, &mc)
-			now := float64(time.Now().Unix())
-			e.VAdd("i", "a", []float32{1, 0}, map[string]any{"_created_at": now - 500})
-			e.VAdd("i", "b", []float32{1, 0}, map[string]any{"_created_at": now - 500})
-			cnt := map[string]float64{}
-			last := map[string]float64{}
-			label := fmt.Sprintf("%s %v", modelName, s)
-			c.State(1)
-			c.Trans(int64(len(s)))
-			c.DistinctKey("reinforce/" + label)
-			for _, op := range s {
-				switch op {
-				case "tick":
-					time.Sleep(7 * time.Second)
-				default:
-					id := op[1:]
-					if err := e.VReinforce("i", []string{id}); err != nil {
-						c.Violate("C15 reinforce error", err.Error(), nil)
-					}
-					cnt[id]++
-					last[id] = float64(time.Now().Unix())
+			for _, init := range inits {
+				if !c.Mine() {
+					continue
 				}
-				for _, id := range []string{"a", "b"} {
-					d, err := e.VGet("i", id)
-					if err != nil {
-						c.Violate("C15 reinforce lost the memory seq="+label, err.Error(), nil)
-						continue
-					}
-					got, _ := d.Metadata["_access_count"].(float64)
-					if got != cnt[id] {
-						c.Violate("C15 reinforce access-count "+modelName, fmt.Sprintf("seq=%v: %s has _access_count=%v, %v reinforcements were acknowledged", s, id, d.Metadata["_access_count"], cnt[id]), nil)
-					}
-					if cnt[id] > 0 {
-						la, _ := d.Metadata["_last_accessed"].(float64)
-						if la != last[id] {
-							c.Violate("C15 reinforce reference-time "+modelName, fmt.Sprintf("seq=%v: %s _last_accessed=%v want %v", s, id, la, last[id]), nil)
+				n++
+				w, err := hx.NewWorld()
+				if err != nil {
+					continue
+				}
+				e := w.E
+				mc := hnsw.MemoryConfig{Enabled: true, DecayModel: hnsw.DecayModel(modelName), DecayHalfLife: hnsw.Duration(100 * time.Second)}
+				e.VCreate("i", "euclidean", 16, 200, "float32", "", nil, nil, &mc)
+				now := float64(time.Now().Unix())
+				ma := map[string]any{"_created_at": now - 500}
+				cnt := map[string]float64{}
+				if init != nil {
+					ma["_access_count"] = init
+					cnt["a"] = 3
+				}
+				e.VAdd("i", "a", []float32{1, 0}, ma)
+				e.VAdd("i", "b", []float32{1, 0}, map[string]any{"_created_at": now - 500})
+				last := map[string]float64{}
+				label := fmt.Sprintf("%s %v init=%T", modelName, s, init)
+				c.State(1)
+				c.Trans(int64(len(s)))
+				c.DistinctKey("reinforce/" + label)
+				for _, op := range s {
+					switch op {
+					case "tick":
+						time.Sleep(7 * time.Second)
+					default:
+						id := op[1:]
+						if err := e.VReinforce("i", []string{id}); err != nil {
+							c.Violate("C15 reinforce error", err.Error(), nil)
 						}
+						cnt[id]++
+						last[id] = float64(time.Now().Unix())
 					}
-				}
-				// ranking consequence
-				if last["a"] != last["b"] || cnt["a"] != cnt["b"] {
-					hi, lo := "a", "b"
-					if last["b"] > last["a"] || (last["a"] == last["b"] && cnt["b"] > cnt["a"]) {
-						hi, lo = "b", "a"
-					}
-					if last[hi] > last[lo] { // hi was reinforced more recently: reference time moved to a later instant
-						for _, api := range []string{"VSearchWithScores", "VSearchGraph"} {
-							sc := map[string]float64{}
-							var order []string
-							if api == "VSearchWithScores" {
-								r, _ := e.VSearchWithScores("i", []float32{1, 0}, 2)
-								for _, x := range r {
-									sc[x.ID] = x.Score
-									order = append(order, x.ID)
-								}
-							} else {
-								r, _ := e.VSearchGraph("i", []float32{1, 0}, 2, "", "", 50, 1, nil, false, nil)
-								for _, x := range r {
-									sc[x.ID] = x.Score
-									order = append(order, x.ID)
-								}
-							}
-							if len(order) == 2 && !(sc[hi] > sc[lo]) {
-								c.Violate(fmt.Sprintf("C15 %s reinforced-twin-not-ranked-higher model=%s", api, modelName),
-									fmt.Sprintf("seq=%v: %s (last reinforced at %v) scores %g, %s (last %v) scores %g", s, hi, last[hi], sc[hi], lo, last[lo], sc[lo]),
-									map[string]any{"property": "C15", "harness": "c15", "part": "reinforce"})
+					for _, id := range []string{"a", "b"} {
+						d, err := e.VGet("i", id)
+						if err != nil {
+							c.Violate("C15 reinforce lost the memory seq="+label, err.Error(), nil)
+							continue
+						}
+						got := num(d.Metadata["_access_count"])
+						if got != cnt[id] {
+							c.Violate("C15 reinforce access-count "+modelName, fmt.Sprintf("seq=%v: %s has _access_count=%v, %v reinforcements were acknowledged", s, id, d.Metadata["_access_count"], cnt[id]), nil)
+						}
+						if cnt[id] > 0 {
+							la, _ := d.Metadata["_last_accessed"].(float64)
+							if la != last[id] {
+								c.Violate("C15 reinforce reference-time "+modelName, fmt.Sprintf("seq=%v: %s _last_accessed=%v want %v", s, id, la, last[id]), nil)
 							}
 						}
 					}
+					// ranking consequence
+					if last["a"] != last["b"] || cnt["a"] != cnt["b"] {
+						hi, lo := "a", "b"
+						if last["b"] > last["a"] || (last["a"] == last["b"] && cnt["b"] > cnt["a"]) {
+							hi, lo = "b", "a"
+						}
+						if last[hi] > last[lo] { // hi was reinforced more recently: reference time moved to a later instant
+							for _, api := range []string{"VSearchWithScores", "VSearchGraph"} {
+								sc := map[string]float64{}
+								var order []string
+								if api == "VSearchWithScores" {
+									r, _ := e.VSearchWithScores("i", []float32{1, 0}, 2)
+									for _, x := range r {
+										sc[x.ID] = x.Score
+										order = append(order, x.ID)
+									}
+								} else {
+									r, _ := e.VSearchGraph("i", []float32{1, 0}, 2, "", "", 50, 1, nil, false, nil)
+									for _, x := range r {
+										sc[x.ID] = x.Score
+										order = append(order, x.ID)
+									}
+								}
+								if len(order) == 2 && !(sc[hi] > sc[lo]) {
+									c.Violate(fmt.Sprintf("C15 %s reinforced-twin-not-ranked-higher model=%s", api, modelName),
+										fmt.Sprintf("seq=%v: %s (last reinforced at %v) scores %g, %s (last %v) scores %g", s, hi, last[hi], sc[hi], lo, last[lo], sc[lo]),
+										map[string]any{"property": "C15", "harness": "c15", "part": "reinforce"})
+								}
+							}
+						}
+					}
 				}
+				w.Destroy()
 			}
-			w.Destroy()
 		}
 	}
 	c.Eval(n)
 	c.Count("reinforcement_sequences", n)
+}
+
+// num reads a metadata number of any Go number type.
+func num(v any) float64 {
+	switch x := v.(type) {
+	case float64:
+		return x
+	case float32:
+		return float64(x)
+	case int:
+		return float64(x)
+	case int64:
+		return float64(x)
+	case int32:
+		return float64(x)
+	}
+	return 0
 }
 
 func run(c *vk.Ctx) {
